@@ -135,25 +135,64 @@ def _volume_model(seed):
                        (None, rng.uniform(1, 50, shape)),
                        (rng.uniform(1, 3, shape), rng.uniform(1, 50, shape))):
             model = emg3d.Model(grid, mu_r=mu, epsilon_r=ep, **kw)
-            for f in (2.5, -3.0, 2.0e6, -1.0e7):
-                sf = emg3d.Field(grid, frequency=f)
-                vm = emg3d.models.VolumeModel(model, sf)
-                s = fit.sval(f)
-                vol = fit.volumes(h)
-                sy = sig[1] if case in (1, 3) else sig[0]
-                sz = sig[2] if case in (2, 3) else sig[0]
-                for got, sg in ((vm.eta_x, sig[0]), (vm.eta_y, sy),
-                                (vm.eta_z, sz)):
-                    st = sg if ep is None else sg + s*fit.EPS0*ep
-                    if not np.allclose(got, -s*fit.MU0*vol*st, rtol=1e-13,
-                                       atol=0):
-                        notes.append(f"eta, case {case}, f={f}")
-                z = vol if mu is None else vol/mu
-                if not np.allclose(vm.zeta, z, rtol=1e-15, atol=0):
-                    notes.append(f"zeta, case {case}")
-                if (vm.eta_y is vm.eta_x) != (case in (0, 2)) or \
-                        (vm.eta_z is vm.eta_x) != (case in (0, 1)):
-                    notes.append(f"aliasing, case {case}")
+
+            def check(tag, freqs, sig=sig, mu=mu, ep=ep):
+                for f in freqs:
+                    sf = emg3d.Field(grid, frequency=f)
+                    vm = emg3d.models.VolumeModel(model, sf)
+                    s = fit.sval(f)
+                    vol = fit.volumes(h)
+                    sy = sig[1] if case in (1, 3) else sig[0]
+                    sz = sig[2] if case in (2, 3) else sig[0]
+                    for got, sg in ((vm.eta_x, sig[0]), (vm.eta_y, sy),
+                                    (vm.eta_z, sz)):
+                        st = sg if ep is None else sg + s*fit.EPS0*ep
+                        if not np.allclose(got, -s*fit.MU0*vol*st,
+                                           rtol=1e-13, atol=0):
+                            notes.append(f"eta{tag}, case {case}, f={f}")
+                    z = vol if mu is None else vol/mu
+                    if not np.allclose(vm.zeta, z, rtol=1e-15, atol=0):
+                        notes.append(f"zeta{tag}, case {case}")
+                    if (vm.eta_y is vm.eta_x) != (case in (0, 2)) or \
+                            (vm.eta_z is vm.eta_x) != (case in (0, 1)):
+                        notes.append(f"aliasing{tag}, case {case}")
+            check("", (2.5, -3.0, 2.0e6, -1.0e7))
+            # the coefficients describe the CURRENT model: material values
+            # replaced through the setters or edited in place between two
+            # builds (the same Model object is used for many frequencies
+            # and iterations of an inversion)
+            sig2 = [x.copy() for x in sig]
+            mu2 = None if mu is None else mu.copy()
+            ep2 = None if ep is None else ep.copy()
+            if mu is not None:
+                mu2 = rng.uniform(1, 3, shape)
+                model.mu_r = mu2
+                check(" after mu_r setter", (2.5, -3.0), sig2, mu2, ep2)
+                model.mu_r[1, :, :] *= 1.5
+                mu2 = mu2.copy()
+                mu2[1, :, :] *= 1.5
+                check(" after mu_r edit in place", (2.5,), sig2, mu2, ep2)
+            if ep is not None:
+                ep2 = rng.uniform(1, 50, shape)
+                model.epsilon_r = ep2
+                check(" after epsilon_r setter", (2.0e6, -1.0e7), sig2, mu2,
+                      ep2)
+                model.epsilon_r[:, 0, :] *= 2.0
+                ep2 = ep2.copy()
+                ep2[:, 0, :] *= 2.0
+                check(" after epsilon_r edit in place", (2.0e6,), sig2, mu2,
+                      ep2)
+            sig2[0] = 10**rng.uniform(-2, 1, shape)
+            model.property_x = sig2[0]
+            check(" after property_x setter", (2.5, -3.0), sig2, mu2, ep2)
+            model.property_x[:, :, 2] *= 3.0
+            sig2[0] = sig2[0].copy()
+            sig2[0][:, :, 2] *= 3.0
+            check(" after property_x edit in place", (2.5,), sig2, mu2, ep2)
+            if case in (2, 3):
+                sig2[2] = 10**rng.uniform(-2, 1, shape)
+                model.property_z = sig2[2]
+                check(" after property_z setter", (-3.0,), sig2, mu2, ep2)
     return notes
 
 
